@@ -217,6 +217,14 @@ if "C03" in PROPS:
 # thorough-tier sanitizer / interpreter layers (same monitors, small slices of the workload)
 import sanstage  # noqa: E402
 
+# the bundled real-world grammars (derive-compiled) as an additional workload
+PROPS["C15"]["runs"].append(dict(bin="mon_fixed", sub="c15g", features="", config="bundled-grammars"))
+PROPS["C08"]["runs"].append(dict(bin="mon_fixed", sub="c08g", features="", config="bundled-grammars"))
+PROPS["C12"]["runs"].append(dict(bin="mon_fixed", sub="c12g", features="", config="bundled-grammars"))
+for _p, _t in (("C15", "error-detail on/off comparison"), ("C08", "failure-report checker (derive back-end)"), ("C12", "call-limit sweep")):
+    PROPS[_p]["rule"] += (" Additional workload: the bundled JSON/TOML/SQL/HTTP grammars (pest_grammars, derive-compiled from the working tree) on "
+                          "documents produced by derivation walks over their grammar files plus mutants: " + _t + ".")
+
 PROPS["C03"]["runs"].append(dict(kind="custom", fn=sanstage.miri_stage, bin="mon_state", sub="c03", config="miri", thorough_only=True,
                                  shards=16, scale=0.0015))
 PROPS["C04"]["runs"].append(dict(kind="custom", fn=sanstage.miri_stage, bin="mon", sub="c04", config="miri", thorough_only=True,
